@@ -5,6 +5,7 @@ from onl.netdev import Port, PortMonitor
 from onl.netdev.red_port import REDPort
 import onl.netdev.red_port as red_mod
 from harness.fifo import FifoRun, source, run_many, INF
+from harness import dynport
 from vlib.util import bits, run_driver, split_cases, quiet
 
 ASSUMPTIONS = [
@@ -15,6 +16,10 @@ ASSUMPTIONS = [
     '(qlimit None or a byte limit, every rate, one source) as a process on the kernel *model* K (Props/C09K.lean); '
     'not for the packet-count limit and RED',
 ]
+ASSUMPTIONS.append('reconfiguration while running / re-entrant next hop (oracle-only family, harness/dynport.py): `rate` and `qlimit` are reassigned by another process between '
+                   'packets - the serialisation time is read with the rate the port has when the transmission starts (max(arrival, previous departure)), the tail-drop rule '
+                   'with the limit at the arrival (clause instances in the very instant of a change are not judged); the next hop offers a packet to the port again from inside '
+                   'its own put(): at that instant the packet just handed on is no longer held, for the byte-limit rule and for the advertised occupancy `byte_size` alike')
 EXTRA_MODULES = ('OnlVerif.Props.C09K',)
 TRUSTED_EXTRA = ['the kernel guarantees (G1-G3) that make `tick` admissible only at quiescence are theorems of model K (C01), assumed for the device LTS',
                  'py2lean/elem.py + elements.py (typed AST-subset translator; hand-written field schema of Port / REDPort objects, declared effects '
@@ -560,7 +565,7 @@ def run(ctx):
     krng = random.Random(f'C09-portk-{ctx.seed}')
     kcases = [c for c in cases if c.get('portk')] if ctx.replay else \
         [gen_portk(krng, i) for i in range(300 if ctx.quick else 5000)]
-    cases = [c for c in cases if not c.get('portk')]
+    cases = [c for c in cases if not c.get('portk') and not str(c.get('kind', '')).startswith('dyn:')]
     text, runs = [], {}
     for c in cases:
         r = run_impl(c)
@@ -626,6 +631,9 @@ def run(ctx):
                 break
     kdis, korc, knt = run_portk(kcases)
     dis += kdis; orc += korc
+    # oracle-only: rate / qlimit reassigned while the port runs, next hops that offer a packet again from inside their own put()
+    dyn = dynport.run_family(ctx, 'C09', ['rate', 'qlimit', 'reflect', 'reflect'], ['rule', 'occupancy', 'service', 'conserve'], 90, 1800)
+    orc += dyn['oracle_failures']
     cov = {'evaluations': len(cases), 'distinct_nontrivial': nontriv,
            'rule': 'seeded random port configurations x arrival workloads (1-3 sources, bursts, arrivals at departure instants), in half of the cases next to 1-2 peer ports with their own traffic in the same Environment; non-trivial = distinct case with at least one drop or an arrival at the very instant of a departure',
            'samples': samples, 'traces_validated_against_impl': len(cases) - len({d['case']['cid'] for d in dis}),
@@ -634,5 +642,6 @@ def run(ctx):
            'portk_rule': 'the Port-on-kernel-model program (PortOnK.lean) run by the driver vs the real Port + source process on the real kernel: how run() ended, every out.put (id, env.now bits), final attributes, final clock',
            'translated': _PREP.get('translated', []), 'generated_files_rewritten': _PREP.get('rewritten', []),
            'generated_diff_vs_pinned': _PREP.get('diff_vs_pinned', []),
-           'bridge_theorems': BRIDGES, 'hand_modelled': HAND_MODELLED}
+           'bridge_theorems': BRIDGES, 'hand_modelled': HAND_MODELLED,
+           'reconfigured_and_reentrant_family_oracle_only': dyn['coverage']}
     return {'coverage': cov, 'disagreements': dis, 'oracle_failures': orc}
